@@ -1,5 +1,5 @@
 --------------------------------- MODULE Join ---------------------------------
-(* DRAFT (round 0).  src/join.rs + the closure epilogue of coroutine_impl.rs:277-288.
+(* src/join.rs + the closure epilogue of coroutine_impl.rs:277-288.
    Finisher: store the packet, Join::trigger (state := false; take to_wake; unpark).
    Joiners (wait / join / is_done pollers): load; register; re-load; park | un-register. *)
 EXTENDS Naturals, FiniteSets, TLC
